@@ -17,10 +17,10 @@ def ref(*names):
     return ("ref", list(names))
 
 
-NUM_OR_LABEL = ("select", [("LENGTH_MEASURE", REAL), ("LABEL", STR), ("COUNT_MEASURE", INT)])
+NUM_OR_LABEL = ("select", [("LENGTH_MEASURE", REAL), ("LABEL", STR), ("COUNT_MEASURE", INT), ("RATIO_MEASURE", NUMBER)])
 ENT_SEL = ("select", [(None, ref("POINT", "CIRCLE", "DPOINT"))])
 MIXED_SEL = ("select", [(None, ref("POINT", "CIRCLE", "DPOINT")), ("LENGTH_MEASURE", REAL), ("LABEL", STR),
-                        ("COUNT_MEASURE", INT)])
+                        ("COUNT_MEASURE", INT), ("RATIO_MEASURE", NUMBER)])
 
 # entity -> (supertypes, own attributes [(name, type, optional, derived)])
 ENTITIES = {
